@@ -20,7 +20,7 @@
 //!   trip                     tripwire + await the API/changes handles (first half of the binary's stop)
 //!   wind                     `drop_handles()`; waits until the matcher has finished
 //!   exit                     `wait_for_all_pending_handles()`; the process part of the node is gone
-//!   graceful                 trip + wind + exit
+//!   graceful [fast]          trip + wind + exit; `fast`: without waiting for the matcher to notice the tripwire
 //!   unsub [hold]             what `process_sub_channel` does when all listeners are gone for
 //!                            MAX_UNSUB_TIME: `subs.remove(id)` + `handle.cleanup()`; `hold` keeps one more
 //!                            handle clone alive (as a slow `catch_up_sub` would), so the matcher stays in
@@ -72,6 +72,59 @@ fn query_sql(qid: &str) -> Option<(&'static str, usize)> {
         "slow" => Some(("SELECT t.id, t.b, big.id FROM t JOIN big ON big.v + 0 = t.id + 0", 3)),
         _ => None,
     }
+}
+
+// ------------------------------------------------------------------------------------------------
+// what the matcher says about itself: "draining changes channel" = it has left its select loop
+// ------------------------------------------------------------------------------------------------
+
+fn draining() -> &'static Mutex<std::collections::HashSet<String>> {
+    static D: std::sync::OnceLock<Mutex<std::collections::HashSet<String>>> = std::sync::OnceLock::new();
+    D.get_or_init(|| Mutex::new(Default::default()))
+}
+
+struct DrainWatch;
+
+#[derive(Default)]
+struct MsgVisitor {
+    msg: String,
+    sub_id: String,
+}
+
+impl tracing::field::Visit for MsgVisitor {
+    fn record_debug(&mut self, field: &tracing::field::Field, value: &dyn std::fmt::Debug) {
+        match field.name() {
+            "message" => self.msg = format!("{value:?}"),
+            "sub_id" => self.sub_id = format!("{value:?}"),
+            _ => {}
+        }
+    }
+}
+
+impl<S: tracing::Subscriber> tracing_subscriber::Layer<S> for DrainWatch {
+    fn on_event(&self, event: &tracing::Event<'_>, _ctx: tracing_subscriber::layer::Context<'_, S>) {
+        let m = event.metadata();
+        if *m.level() != tracing::Level::INFO || !m.target().ends_with("pubsub") {
+            return;
+        }
+        let mut v = MsgVisitor::default();
+        event.record(&mut v);
+        if v.msg == "draining changes channel" {
+            draining().lock().unwrap().insert(v.sub_id);
+        }
+    }
+}
+
+fn install_watch() {
+    use tracing_subscriber::prelude::*;
+    static ONCE: std::sync::OnceLock<()> = std::sync::OnceLock::new();
+    ONCE.get_or_init(|| {
+        let _ = tracing_subscriber::registry().with(DrainWatch.with_filter(tracing_subscriber::filter::LevelFilter::INFO)).try_init();
+    });
+}
+
+fn left_loop(id: Uuid) -> bool {
+    draining().lock().unwrap().contains(&id.to_string())
 }
 
 // ------------------------------------------------------------------------------------------------
@@ -389,7 +442,10 @@ fn read_sub(node: &Path, id: Uuid, ncols: usize) -> Result<SubFiles, String> {
     Ok(SubFiles { rows, by_rowid, max_id: mx as u64, ids_contiguous: n == 0 || (mn == 1 && mx == n) })
 }
 
+/// the subscription's query evaluated on the node database.  (`slow` is written so that SQLite cannot use an
+/// index; the harness evaluates the same join with the index-friendly spelling of the same condition.)
 fn node_rows(node: &Path, sql: &str) -> Result<Vec<String>, String> {
+    let sql = if Some(sql) == query_sql("slow").map(|q| q.0) { "SELECT t.id, t.b, big.id FROM t JOIN big ON big.v = t.id WHERE t.id < 1000" } else { sql };
     rows_of(&open_ro(&db_path(node))?, sql)
 }
 
@@ -579,6 +635,28 @@ impl World {
             self.tags.push("slow-fill".into());
         }
         Ok("ok".into())
+    }
+
+    /// the number of counted tasks once it has stopped moving (everything the tripwire ends has ended)
+    fn stable_count(&self) -> usize {
+        let load = || PENDING_HANDLES.load(std::sync::atomic::Ordering::SeqCst);
+        let (mut last, mut since, t0) = (load(), Instant::now(), Instant::now());
+        loop {
+            std::thread::sleep(Duration::from_millis(4));
+            let c = load();
+            if c != last {
+                last = c;
+                since = Instant::now();
+            }
+            if since.elapsed() >= Duration::from_millis(60) || t0.elapsed() > Duration::from_secs(2) {
+                return c;
+            }
+        }
+    }
+
+    /// the matcher is a counted task: it has ended when the count has gone down by one
+    fn wait_matcher_gone(&self, c0: usize) -> bool {
+        wait_until(LONG, || Ok(PENDING_HANDLES.load(std::sync::atomic::Ordering::SeqCst) + 1 <= c0)).unwrap_or(false)
     }
 
     fn registered(&self) -> bool {
@@ -874,7 +952,7 @@ impl World {
         Ok(format!("ok last={}", f.max_id))
     }
 
-    fn op_trip(&mut self) -> Result<String, String> {
+    fn op_trip(&mut self, wait_for_matcher: bool) -> Result<String, String> {
         if !self.up() || self.inc.as_ref().unwrap().tripped {
             return Err("bad-op".into());
         }
@@ -883,6 +961,18 @@ impl World {
         // the client goes away with the API (its connection would only be closed by the server anyway)
         inc.stream = None;
         inc.trip()?;
+        // the matcher notices the tripwire and leaves its loop (it says so); while it is still inside its initial
+        // query it cannot (then `drop_handles()` may reach it first: since fix c37e976 that makes no difference)
+        if let Some(t) = self.track.clone() {
+            if self.registered() && wait_for_matcher {
+                if self.eoq {
+                    let ok = wait_until(LONG, || Ok(left_loop(t.id)))?;
+                    if !ok {
+                        self.fail("the matcher did not leave its loop within 30 s after the tripwire".into());
+                    }
+                }
+            }
+        }
         Ok("ok".into())
     }
 
@@ -890,16 +980,18 @@ impl World {
         if !self.up() || !self.inc.as_ref().unwrap().tripped || self.inc.as_ref().unwrap().wound {
             return Err("bad-op".into());
         }
+        let alive = self.registered() || self.inc.as_ref().unwrap().clone_hold.is_some();
+        let c0 = if alive { self.stable_count() } else { 0 };
         self.inc.as_mut().unwrap().wind();
         let node = self.node.clone();
         let mut out = "ok".to_string();
         if let Some(t) = self.track.clone() {
-            if !t.planted && !t.finished {
-                let ok = wait_until(LONG, || Ok(matches!(meta_state(&node, t.id).as_str(), "completed" | "nodir")))?;
-                let st = meta_state(&node, t.id);
-                if !ok {
+            if !t.planted && alive {
+                if !self.wait_matcher_gone(c0) {
+                    let st = meta_state(&node, t.id);
                     self.fail(format!("after drop_handles the matcher did not finish within 30 s (state {st})"));
                 }
+                let st = meta_state(&node, t.id);
                 out = format!("ok state={st}");
                 let last = read_sub(&node, t.id, t.ncols).ok().map(|f| f.max_id);
                 let tr = self.track.as_mut().unwrap();
@@ -933,6 +1025,7 @@ impl World {
             return Err("bad-op".into());
         }
         self.save_client();
+        let c0 = self.stable_count();
         let inc = self.inc.as_mut().unwrap();
         inc.stream = None;
         let agent = inc.agent().clone();
@@ -947,17 +1040,22 @@ impl World {
         });
         let Some(h) = h else { return Err("bad-op".into()) };
         let node = self.node.clone();
-        let want = if hold { "cancelled" } else { "completed" };
         if hold {
             inc.clone_hold = Some(h);
+            // the matcher acknowledges the cancellation and waits in its drain
+            let ok = wait_until(LONG, || Ok(meta_state(&node, id) == "cancelled"))?;
+            if !ok {
+                let st = meta_state(&node, id);
+                self.fail(format!("after unsubscribe the matcher did not reach state cancelled within 30 s (state {st})"));
+            }
         } else {
             drop(h);
+            if !self.wait_matcher_gone(c0) {
+                let st = meta_state(&node, id);
+                self.fail(format!("after unsubscribe the matcher did not finish within 30 s (state {st})"));
+            }
         }
-        let ok = wait_until(LONG, || Ok(meta_state(&node, id) == want))?;
         let st = meta_state(&node, id);
-        if !ok {
-            self.fail(format!("after unsubscribe the matcher did not reach state {want} within 30 s (state {st})"));
-        }
         let last = read_sub(&node, id, t.ncols).ok().map(|f| f.max_id);
         let tr = self.track.as_mut().unwrap();
         tr.unsubscribed = true;
@@ -975,13 +1073,14 @@ impl World {
         if !self.up() || self.inc.as_ref().unwrap().clone_hold.is_none() {
             return Err("bad-op".into());
         }
+        let c0 = self.stable_count();
         self.inc.as_mut().unwrap().clone_hold = None;
         let node = self.node.clone();
-        let ok = wait_until(LONG, || Ok(meta_state(&node, t.id) == "completed"))?;
-        let st = meta_state(&node, t.id);
-        if !ok {
+        if !self.wait_matcher_gone(c0) {
+            let st = meta_state(&node, t.id);
             self.fail(format!("after the last handle clone went away the matcher did not finish within 30 s (state {st})"));
         }
+        let st = meta_state(&node, t.id);
         let last = read_sub(&node, t.id, t.ncols).ok().map(|f| f.max_id);
         let tr = self.track.as_mut().unwrap();
         tr.finished = true;
@@ -1111,6 +1210,8 @@ impl World {
         }
         if let Some(t) = self.track.as_mut() {
             t.writes_since_restart = 0;
+            // (what an earlier incarnation's matcher said does not count for the new one)
+            draining().lock().unwrap().remove(&t.id.to_string());
         }
         let inc = start_inc(&self.node)?;
         self.inc = Some(inc);
@@ -1218,7 +1319,7 @@ impl World {
             self.fail(format!("GET /v1/subscriptions/{{id}} answered {status}, expected 404"));
         }
         match self.origin {
-            Origin::Graceful if !found && !t.planted => self.fail("after a graceful stop and restart the subscription is gone (404)".into()),
+            Origin::Graceful if !found && !t.planted && !t.unsubscribed => self.fail("after a graceful stop and restart the subscription is gone (404)".into()),
             Origin::Abrupt { active: true } if found => self.fail("after an abrupt stop in the middle of its life the subscription is served again".into()),
             _ => {}
         }
@@ -1291,6 +1392,7 @@ fn run_from(w: &mut World, ops: &[String], outputs: &mut Vec<String>) -> Result<
             Err("bad-op".into())
         } else {
             match toks.as_slice() {
+                ["tag", name] if name.chars().all(|c| c.is_ascii_alphanumeric() || c == '-') => Ok("ok".into()),
                 ["fill", n] => match n.parse::<u64>() {
                     Ok(n) => w.op_fill(n),
                     Err(_) => Err("bad-op".into()),
@@ -1302,14 +1404,16 @@ fn run_from(w: &mut World, ops: &[String], outputs: &mut Vec<String>) -> Result<
                 ["hold"] => w.op_hold(),
                 ["release"] => w.op_release(),
                 ["sync"] => w.op_sync(),
-                ["trip"] => w.op_trip(),
+                ["trip"] => w.op_trip(true),
                 ["wind"] => w.op_wind(),
                 ["exit"] => w.op_exit(),
-                ["graceful"] => {
+                ["graceful"] | ["graceful", "fast"] => {
+                    // `fast`: drop_handles() right after the API/changes handles, whether or not the matcher has
+                    // looked at the tripwire yet
                     if !w.up() || w.inc.as_ref().unwrap().tripped {
                         Err("bad-op".into())
                     } else {
-                        w.op_trip().and_then(|_| w.op_wind()).and_then(|o| w.op_exit().map(|_| o))
+                        w.op_trip(toks.len() == 1).and_then(|_| w.op_wind()).and_then(|o| w.op_exit().map(|_| o))
                     }
                 }
                 ["unsub"] => w.op_unsub(false),
@@ -1460,7 +1564,7 @@ fn child_main(ops: &[String], node: &str, mode: &str) -> ! {
                 }
             }
             "wind" if w.up() && !w.inc.as_ref().unwrap().wound => {
-                let _ = w.op_trip();
+                let _ = w.op_trip(false);
                 let _ = std::fs::write(base.join("child.wind"), b"");
                 let _ = w.op_wind();
                 let _ = w.op_exit();
@@ -1623,7 +1727,11 @@ impl Prop for C13 {
     fn gen_case(&self, rng: &mut Rng, tier: Tier, index: usize) -> Vec<String> {
         gen_case(rng, tier, index)
     }
+    fn begin(&self) {
+        install_watch();
+    }
     fn exec_case(&self, ops: &[String]) -> CaseResult {
+        install_watch();
         if let (Ok(node), Ok(mode)) = (std::env::var("HX_C13_CHILD_NODE"), std::env::var("HX_C13_CHILD_MODE")) {
             child_main(ops, &node, &mode);
         }
@@ -1841,7 +1949,8 @@ fn gen_case(rng: &mut Rng, tier: Tier, index: usize) -> Vec<String> {
                 g.ops.push("subinfo".into());
             }
         } else if kind < graceful_share + 8 {
-            // ---- unsubscribed, nothing written afterwards, then any stop: comes back as it was
+            // ---- unsubscribed (all listeners gone for MAX_UNSUB_TIME), the node goes on writing, then any stop:
+            //      gone for good (fix 49b7ba8)
             if !g.eoq {
                 g.ops.push("sync".into());
                 g.eoq = true;
@@ -1849,6 +1958,8 @@ fn gen_case(rng: &mut Rng, tier: Tier, index: usize) -> Vec<String> {
             }
             g.ops.push("unsub".into());
             g.have_sub = false;
+            g.inflight.clear();
+            g.writes(rng, 0, 2, false);
             if rng.chance(1, 2) {
                 g.ops.push("graceful".into());
                 g.ops.push("restart live".into());
@@ -1857,9 +1968,7 @@ fn gen_case(rng: &mut Rng, tier: Tier, index: usize) -> Vec<String> {
                 g.ops.push(format!("snapshot {t}"));
                 g.ops.push(format!("restart {t}"));
             }
-            g.restarted(true);
-            g.ops.push("subinfo".into());
-            g.writes(rng, 1, 1, false);
+            g.restarted(false);
             g.ops.push("subinfo".into());
         } else {
             // ---- abrupt stop at some phase
